@@ -112,7 +112,7 @@ class ConsumerRec:
 
 
 class Timer:
-    __slots__ = ("deadline", "seq", "callback", "owner", "cancelled", "ctx", "label")
+    __slots__ = ("deadline", "seq", "callback", "owner", "cancelled", "ctx", "label", "corr")
 
     def __init__(self, deadline, seq, callback, owner, ctx, label):
         self.deadline, self.seq, self.callback, self.owner = deadline, seq, callback, owner
